@@ -16,10 +16,24 @@ mod spec;
 use spec::*;
 use std::convert::TryFrom;
 
+static mut RAND_LOG: u64 = 0;
+static mut RAND_CNT: usize = 0;
+/// any value of the requested range; logs it so that the result can be compared with 0x1f * N + 0x21 for
+/// the very N that was drawn (cheaper for the SAT solver than `% 0x1f` on a product)
 fn stub_fastrand_u64<R: std::ops::RangeBounds<u64>>(r: R) -> u64 {
     let x: u64 = kani::any();
     kani::assume(r.contains(&x));
+    unsafe {
+        RAND_LOG = x;
+        RAND_CNT += 1;
+    }
     x
+}
+fn drawn() -> u64 {
+    unsafe {
+        assert!(RAND_CNT == 1);
+        RAND_LOG
+    }
 }
 
 static MOCK_BYTES: [u8; 4] = [0xa5; 4];
@@ -137,14 +151,36 @@ fn c14_frametype_constants() {
     kani::cover!(true);
 }
 
+// vp: props=C14; tag=C14.grease.spec; kind=complete; tier=thorough
+// the two renderings of "reserved identifier" agree: x is of the form 0x1f*N+0x21 (spec_is_grease, by
+// remainder) <=> x == spec_grease_nth(N) for N = (x - 0x21) / 0x1f
+#[kani::proof]
+fn c14_spec_grease_forms_agree() {
+    let n: u64 = kani::any();
+    let g = spec_grease_nth(n);
+    if g <= u64::MAX as u128 {
+        assert!(spec_is_grease(g as u64));
+    }
+    let x: u64 = kani::any();
+    if spec_is_grease(x) {
+        assert!(spec_grease_nth((x - 0x21) / 0x1f) == x as u128);
+    } else if x >= 0x21 {
+        assert!(spec_grease_nth((x - 0x21) / 0x1f) != x as u128);
+    }
+    kani::cover!(n == 0 && x == 0x21);
+    kani::cover!(spec_is_grease(x) && x > TWO62);
+    kani::cover!(!spec_is_grease(x) && x > 0x21);
+}
+
 // vp: props=C14; tag=C14.grease.frametype; kind=complete; tier=quick
-// for every value fastrand can return: the grease frame type is 0x1f*N+0x21, fits a varint,
-// no overflow in the computation, and is neither a defined nor an HTTP/2-reserved type
+// for every N fastrand can return: the grease frame type is exactly 0x1f*N+0x21 (no overflow in the
+// computation — Kani's arithmetic checks are on), fits a varint, and is neither a defined nor an
+// HTTP/2-reserved type
 #[kani::proof]
 #[kani::stub(fastrand::u64, stub_fastrand_u64)]
 fn c14_frametype_grease_form() {
     let g = FrameType::grease().0;
-    assert!(spec_is_grease(g));
+    assert!(g as u128 == spec_grease_nth(drawn()));
     assert!(g < TWO62);
     assert!(!spec_is_h2_reserved_frame_type(g));
     assert!(g != SPEC_FT_DATA && g != SPEC_FT_HEADERS && g != SPEC_FT_CANCEL_PUSH && g != SPEC_FT_SETTINGS);
@@ -155,16 +191,17 @@ fn c14_frametype_grease_form() {
 }
 
 // vp: props=C14; tag=C14.grease.settingid; kind=complete; tier=quick
-// same for the grease setting identifier; never an HTTP/2-reserved setting (0x0, 0x2..0x5)
+// same for the grease setting identifier; never an HTTP/2-reserved setting (0x0, 0x2..0x5), never one that
+// has a meaning
 #[kani::proof]
 #[kani::stub(fastrand::u64, stub_fastrand_u64)]
 fn c14_settingid_grease_form() {
     let g = SettingId::grease().0;
-    assert!(spec_is_grease(g));
+    assert!(g as u128 == spec_grease_nth(drawn()));
     assert!(g < TWO62);
     assert!(!SettingId(g).is_forbidden());
     assert!(g != 0x00 && g != 0x02 && g != 0x03 && g != 0x04 && g != 0x05);
-    assert!(!SettingId(g).is_supported()); // never collides with a setting that has a meaning
+    assert!(!SettingId(g).is_supported());
     kani::cover!(g == 0x21);
     kani::cover!(g == TWO62 - 33);
 }
@@ -290,7 +327,8 @@ fn c14_frame_encode_goaway_cancelpush_maxpushid() {
 }
 
 // vp: props=C14; tag=C14.frame.grease; kind=complete; tier=quick
-// the grease frame: a reserved type, length 6, six bytes of payload — a complete, skippable frame
+// the grease frame: the reserved type 0x1f*N+0x21 for the N drawn, length 6, six bytes of payload — a
+// complete, skippable frame
 #[kani::proof]
 #[kani::unwind(25)]
 #[kani::stub(fastrand::u64, stub_fastrand_u64)]
@@ -298,11 +336,12 @@ fn c14_frame_encode_grease() {
     let f: Frame<MockPayload> = Frame::Grease;
     let mut arr = [0u8; OUT];
     let written = encode_to(&f, &mut arr);
-    let g = wire_type(&arr, written);
-    assert!(spec_is_grease(g) && g < TWO62 && !spec_is_h2_reserved_frame_type(g));
+    let g = spec_grease_nth(drawn());
+    assert!(g < TWO62 as u128);
+    let g = g as u64;
+    assert!(!spec_is_h2_reserved_frame_type(g) && g >= 0x21 && g != SPEC_WT_BIDI_SIGNAL);
     let want = spec_bytes_lit(spec_frame_hdr(g, 6), b"grease");
     assert_wire_eq(&arr, written, &want);
-    assert_type_legal(&arr, written, true);
     assert!(written <= 8 + 1 + 6);
     assert!(f.payload().is_none());
     kani::cover!(written == 8);
